@@ -322,3 +322,72 @@ func genMember(r *vh.Rand, idx int) *MemberCase {
 	}
 	return c
 }
+
+// ---------- configured seed that comes up late ----------
+// Instance A is configured with a peer address (--cluster.peer) at which nothing listens yet. A keeps running: its
+// periodic tasks (the production Peer.Join: reconnect of failed peers, removal of peers failed for longer than
+// --cluster.reconnect-timeout, refresh of the configured peers) run in virtual time. After the reconnect timeout has
+// passed the seed finally starts (it does not know A). A's refresh must still find the configured address missing
+// from the membership and join it: both sides then see two members and each holds the other's log entry.
+type RejoinCase struct {
+	ReconnectTimeoutS int `json:"reconnect_timeout_s"`
+	DownS             int `json:"down_s"` // how long the configured peer stays absent (> reconnect timeout + 5 min: the removal task's period)
+}
+
+func runRejoin(t *testing.T, c *RejoinCase) (viols []vh.Violation, tags map[string]int) {
+	tags = map[string]int{}
+	synctest.Test(t, func(t *testing.T) {
+		hub := memhub.New()
+		lg := slog.New(slog.NewTextHandler(io.Discard, nil))
+		type node struct {
+			p  *cluster.Peer
+			nl *nflog.Log
+		}
+		start := func(slot int, name string, known []string) *node {
+			tr, err := hub.Listen(slotAddr(slot))
+			if err != nil {
+				t.Fatalf("listen: %v", err)
+			}
+			reg := prometheus.NewRegistry()
+			p, err := cluster.NewPeerWithTransportForVerif(lg, reg, slotAddr(slot), known, name, tr, nil)
+			if err != nil {
+				t.Fatalf("create: %v", err)
+			}
+			nl, err := nflog.New(nflog.Options{Retention: 100 * time.Hour, Metrics: prometheus.NewRegistry()})
+			if err != nil {
+				t.Fatal(err)
+			}
+			nl.SetBroadcast(p.AddState("nfl", nl, reg).Broadcast)
+			// the production join: one attempt now, then the periodic reconnect / removal / refresh tasks
+			_ = p.Join(10*time.Second, time.Duration(c.ReconnectTimeoutS)*time.Second)
+			return &node{p, nl}
+		}
+		a := start(0, "a", []string{slotAddr(1)})
+		if err := a.nl.Log(receivers[0], "ga", []uint64{1}, nil, nil, 0); err != nil {
+			t.Fatal(err)
+		}
+		time.Sleep(time.Duration(c.DownS) * time.Second)
+		tags[fmt.Sprintf("seed-absent-for-%ds(reconnect-timeout=%ds)", c.DownS, c.ReconnectTimeoutS)]++
+		b := start(1, "b", nil) // the seed comes up; it does not know a
+		if err := b.nl.Log(receivers[0], "gb", []uint64{2}, nil, nil, 0); err != nil {
+			t.Fatal(err)
+		}
+		time.Sleep(2 * time.Minute) // several refresh periods (15 s) and a push/pull
+		na, nb := len(a.p.Peers()), len(b.p.Peers())
+		has := func(n *node, g string) bool {
+			es, err := n.nl.Query(nflog.QGroupKey(g), nflog.QReceiver(receivers[0]))
+			return err == nil && len(es) == 1
+		}
+		if na != 2 || nb != 2 || !has(a, "gb") || !has(b, "ga") {
+			viols = append(viols, vh.Violation{Key: "configured-peer-never-rejoined",
+				What: fmt.Sprintf("a peer configured with --cluster.peer was absent for %d s (reconnect timeout %d s) and then came up: 2 minutes later the instance sees %d member(s), the peer %d; instance holds the peer's entry: %v, peer holds the instance's: %v; bookkeeping %v",
+					c.DownS, c.ReconnectTimeoutS, na, nb, has(a, "gb"), has(b, "ga"), a.p.PeerStatusesForVerif()),
+				Case: Case{Kind: "rejoin", Rejoin: c}})
+		}
+		a.p.CrashForVerif()
+		b.p.CrashForVerif()
+		time.Sleep(time.Minute)
+		synctest.Wait()
+	})
+	return viols, tags
+}
